@@ -296,12 +296,51 @@ impl<'a> RefPp<'a> {
         // phase 2: line splicing
         let text = text.replace("\\\r\n", "").replace("\\\n", "");
         let mut pending: Vec<Tok> = Vec::new();
+        // 6.10.1: #ifdef / #ifndef / #else / #endif groups (the only conditionals of the subset): (group is processed, a group of
+        // the chain was already taken). Lines of a group that is not processed - directives included - have no effect at all.
+        let mut groups: Vec<(bool, bool)> = Vec::new();
         for line in text.split('\n') {
             let line = line.trim_end_matches('\r');
             let trimmed = line.trim_start_matches([' ', '\t']);
+            let processed = groups.iter().all(|g| g.0);
             if let Some(rest) = trimmed.strip_prefix('#') {
+                let body = rest.trim();
+                let dname: String = body.chars().take_while(|c| c.is_ascii_alphanumeric() || *c == '_').collect();
+                match dname.as_str() {
+                    "ifdef" | "ifndef" => {
+                        self.flush(&mut pending)?;
+                        let arg = body[dname.len()..].trim();
+                        if arg.is_empty() || !arg.chars().all(|c| c.is_ascii_alphanumeric() || c == '_') || arg.chars().next().map(|c| c.is_ascii_digit()).unwrap_or(true) {
+                            return Err(Stop::Undecided("directive-outside-subset".into()));
+                        }
+                        let take = processed && (self.find(arg).is_some() == (dname == "ifdef"));
+                        groups.push((take, take));
+                        continue;
+                    }
+                    "else" => {
+                        self.flush(&mut pending)?;
+                        let Some((_, taken)) = groups.pop() else { return Err(Stop::Reject("#else without a conditional".into())) };
+                        let outer = groups.iter().all(|g| g.0);
+                        groups.push((outer && !taken, true));
+                        continue;
+                    }
+                    "endif" => {
+                        self.flush(&mut pending)?;
+                        if groups.pop().is_none() {
+                            return Err(Stop::Reject("#endif without a conditional".into()));
+                        }
+                        continue;
+                    }
+                    "if" | "elif" => return Err(Stop::Undecided("directive-outside-subset".into())),
+                    _ => {}
+                }
+                if !processed {
+                    continue;
+                }
                 self.flush(&mut pending)?;
                 self.directive(rest, name, depth)?;
+            } else if !processed {
+                continue;
             } else {
                 let Some(toks) = lex(line) else {
                     return Err(Stop::Undecided("text-outside-subset".into()));
@@ -313,6 +352,9 @@ impl<'a> RefPp<'a> {
                     pending[mark].hs |= LINE_START;
                 }
             }
+        }
+        if !groups.is_empty() {
+            return Err(Stop::Reject("conditional not terminated in its file".into()));
         }
         self.flush(&mut pending)
     }
